@@ -15,3 +15,4 @@ import NTV.Proofs.C15
 #print axioms NTV.C15.union_contains
 #print axioms NTV.C15.power_basis_discriminant
 #print axioms NTV.C15.singly_gen_linear_panics
+#print axioms NTV.C15.power_basis_discriminant_full
